@@ -47,6 +47,8 @@ func cliScript(kind, in string) string {
 		return "x = 1\n"
 	case "addField":
 		return "add_key(nf, 5)\n"
+	case "nilField":
+		return "add_key(nf, nil)\nadd_key(keep, 1)\n"
 	case "crlfField":
 		return "x = 1\r\nadd_key(nf, \"\"\"first\r\nsecond\r\n\"\"\")\r\n"
 	case "toTag":
